@@ -36,7 +36,7 @@ TOLERANCES = {"rel": 1e-6, "reduction_rel": 1e-5}
 MIN_DECIDED = {"quick": 400, "thorough": 8000}
 MAX_JOBS = 8
 OPS = ["asnumpy", "average", "average_split", "align", "align-rot", "align_multi", "score", "landscape",
-       "landscape-rot", "apply", "classify", "group_align", "binning"]
+       "landscape-rot", "apply", "classify", "group_align", "binning", "mock-noise"]
 SCHEDS = ["threads", "shuffle", "yield", "yield-cache", "delay"]
 
 
@@ -101,6 +101,14 @@ def _run_op(op, loader, tmpl, tmpl2, Model, tilt=False):
         return [np.asarray(loader.asnumpy())]
     if op == "average":
         return [np.asarray(loader.average())]
+    if op == "mock-noise":
+        # simulated sub-volumes with tilt-series noise: the noise of molecule i is drawn from a generator seeded by i
+        from acryo import MockLoader, Molecules
+
+        mo = loader.molecules
+        ml = MockLoader(tmpl, Molecules(np.mod(mo.pos, 1.0) - 0.5, mo.rotator), noise=0.7,
+                        degrees=np.linspace(-60, 60, 7), order=1)
+        return [np.asarray(ml.asnumpy()), np.asarray(ml.average())]
     if op == "binning":
         # lazily binned loader (bin size 3: no chunk size used here is a multiple of it)
         bl_ = loader.binning(3, compute=False)
